@@ -194,6 +194,9 @@ type sys struct {
 	// Replays the kernel accepted: the height must then be committed with a certificate the node holds.
 	replayAccepted []commitEvent
 
+	deferCalls bool
+	deferred   []func(ctx context.Context) string
+
 	curEvent string
 	gSeg      []int // process lifetime (restart count) in which each gossip update was received
 	roundEnds []roundEnd
@@ -364,6 +367,11 @@ func runtimeGoexit() { runtime.Goexit() }
 
 // call runs f (a Handle* call) on its own goroutine and reports whether it returned.
 func (s *sys) call(name string, f func(ctx context.Context) string) string {
+	if s.deferCalls {
+		// Concurrency harness: the call is made later by a scheduled thread.
+		s.deferred = append(s.deferred, f)
+		return "DEFERRED"
+	}
 	if s.eng != nil {
 		s.eng.step = s.step
 		r := s.eng.call(name, f)
